@@ -61,7 +61,7 @@ def enum_cases(rng, tier):
     """interleavings by permuting a fixed set of distinct times over the rule tables"""
     out = []
     # 2 nodes, one edge: every permutation (ascending lists only)
-    cfgs = [([(0, 1)], 2, 1, 1, 2)] if tier == 'quick' else [([(0, 1)], 2, 1, 1, 2), ([(0, 1)], 2, 2, 1, 2)]
+    cfgs = [([(0, 1)], 2, 1, 1, 2), ([(0, 1)], 2, 2, 1, 2)] if tier != 'quick' else [([(0, 1)], 2, 1, 1, 2), ([(0, 1)], 2, 1, 2, 1), ([(0, 1)], 2, 2, 1, 1)]
     for edges, n, nd, nl, ll in cfgs:
         slots, _ = slots_of(edges, n, nd, nl, ll)
         vals = TIMES[:len(slots)]
@@ -73,8 +73,8 @@ def enum_cases(rng, tier):
     # 3 and 4 nodes: sampled permutations
     graphs3 = [e for e in R.all_graphs(3) if e]
     graphs4 = [e for e in R.all_graphs(4) if len(e) >= 2]
-    k3 = 1200 if tier == 'quick' else 12000
-    k4 = 500 if tier == 'quick' else 8000
+    k3 = 3000 if tier == 'quick' else 20000
+    k4 = 1500 if tier == 'quick' else 12000
     for graphs, n, cnt in ((graphs3, 3, k3), (graphs4, 4, k4)):
         for _ in range(cnt):
             edges = rng.choice(graphs)
@@ -154,7 +154,7 @@ def run(run, tier):
         SC.run_cases(L, EoN, sim, corpus, ['D 0'] * len(corpus), oracle=oracle, nontrivial=nontrivial, res=res, label='corpus')
     enum = enum_cases(rng, tier)
     SC.run_cases(L, EoN, sim, enum, ['D 0'] * len(enum), oracle=oracle, nontrivial=nontrivial, res=res, label='enumerated')
-    nrand = 1500 if tier == 'quick' else 25000
+    nrand = 4000 if tier == 'quick' else 40000
     rnd = [L.gen_case(rng, ENTRY, nmax=8, malformed=(i % 40 == 0)) for i in range(nrand)]
     SC.run_cases(L, EoN, sim, rnd, ['W ' + R.ent_tokens(rng, 8) for _ in rnd], oracle=oracle, nontrivial=nontrivial, res=res, label='random')
     cross_check_coq_ref(run, enum[::3] + rnd[::2], res)
